@@ -101,11 +101,11 @@ var (
 	litsVersion = []string{"3.9", "3.8", "3.10", "2.7", "3", "3.9.6", "3.9.6rc1", "3.9.*", "3.9.0", "3.9.7", "4", "3.9.6.post1", "3.9.dev1", "3.*", "abc", "3.9.5", "3.10.0a1"}
 	// alternative PEP 440 spellings of versions (packaging normalises all of them)
 	litsAltVersion = []string{"v3.9", "V3.9", "v3.0", "v3.8", "v3.10", "0!3.9", "1!3.9", "3.9.0", "3.9.6.0", "3.09", "03.9", "3.9rc1", "3.9.6c1", "3.9.post1", "3.9-1", "3.9.6-1", "3.9.dev0", "3.9.6.dev0", " 3.9", "3.9 ", " 3.9.6 ", "3.9.6.RC1", "3.9.6_rc1", "3.9.6.post0", "3.9.6.rev1", "3.9.6a", "3.10.0.alpha1", "3.9.6-rc.1", "v3.9.*", "3.9.6+local"}
-	litsRelease = []string{"6.9.10-1rodete5-amd64", "6.9.10", "5", "6", "amd64", "rodete", "7.0", "6.9.10-1"}
-	litsPlatVer = []string{"SMP", "Debian", "#1", "Ubuntu", "6.9.10", "#1 SMP PREEMPT_DYNAMIC Debian 6.9.10-1rodete5 (2024-09-04)"}
-	litsString  = []string{"linux", "posix", "x86_64", "cpython", "CPython", "Linux", "win32", "nt", "lin", "3.9", "6.9.10", "linux2", "LINUX", "java", "darwin", "x86", "Lin", "cpython3", "a b"}
-	litsAny     = []string{"v3.9", "3.9.0", "0!3.9", "3.9", "linux", "1.0", "x", "3.9.*", "a'b", "Linux", "posix", "3.9rc1", "a;b", "x]y[", "(z)", "1,2", ";", "<=>!~"}
-	litsExtra   = []string{"x", "test", "y", "X", "dev"}
+	litsRelease    = []string{"6.9.10-1rodete5-amd64", "6.9.10", "5", "6", "amd64", "rodete", "7.0", "6.9.10-1"}
+	litsPlatVer    = []string{"SMP", "Debian", "#1", "Ubuntu", "6.9.10", "#1 SMP PREEMPT_DYNAMIC Debian 6.9.10-1rodete5 (2024-09-04)"}
+	litsString     = []string{"linux", "posix", "x86_64", "cpython", "CPython", "Linux", "win32", "nt", "lin", "3.9", "6.9.10", "linux2", "LINUX", "java", "darwin", "x86", "Lin", "cpython3", "a b"}
+	litsAny        = []string{"v3.9", "3.9.0", "0!3.9", "3.9", "linux", "1.0", "x", "3.9.*", "a'b", "Linux", "posix", "3.9rc1", "a;b", "x]y[", "(z)", "1,2", ";", "<=>!~"}
+	litsExtra      = []string{"x", "test", "y", "X", "dev"}
 )
 
 func genLeaf(r *rand.Rand) *M {
@@ -235,7 +235,11 @@ func markerQuirk(m *M) string {
 	if m == nil {
 		return q
 	}
+	env := refEnv()
 	m.leaves(func(l *M) {
+		if _, r, ok := leafOperands(l, env, ""); ok && prefixQuirk(l.Op, r) {
+			q = "prefix-match-on-raw-text"
+		}
 		if l.Op == "not in" && l.W3 != " " {
 			q = "not-in-spacing"
 		}
@@ -557,6 +561,8 @@ func validateAgainstPackaging(c *fw.Ctx, qs []pyQuery) {
 			}
 			if g == "INVALID" {
 				note(q, "packaging rejects a marker the generator considers valid")
+			} else if g != q.want["v"] && q.quirk == "prefix-match-on-raw-text" {
+				c.Count("ref_validation:skipped-" + q.quirk)
 			} else if g != q.want["v"] {
 				note(q, fmt.Sprintf("packaging %v, reference %v", got["v"], q.want["v"]))
 			}
